@@ -493,7 +493,8 @@ def check_C07(tier, seed):
                             "19/20/39-digit integer boundaries of every width; fraction digits at every alignment of the 16-digit reader; zero-padded and huge exponents; overflow/underflow "
                             "boundaries; shortest representations of random doubles and subnormals) parsed into Value, Number, f64, f32, RawNumber, sonic_number and 10 integer widths "
                             "(scalar, sequence element, map key); TLC decides grammar, classification, finiteness, integer ranges and exact round-to-nearest-even with base-1000 limb arithmetic")
-    generic_record_validate("C07", res, "nm-record", ["--seed", seed, "--n", 4000 if tier == QUICK else 300000, "--mode", "parse"], "Trace_Numbers", {}, "parse")
+    generic_record_validate("C07", res, "nm-record", ["--seed", seed, "--n", 6000 if tier == QUICK else 300000, "--mode", "parse"], "Trace_Numbers", {}, "parse")
+    generic_record_validate("C07", res, "nm-record", ["--seed", seed, "--n", 0, "--mode", "pow10grid"], "Trace_Numbers", {}, "pow10grid")
     return res.finish()
 
 
@@ -502,7 +503,10 @@ def check_C08(tier, seed):
     res.coverage["rule"] = ("f64 sampled over every exponent, around powers of two and ten, subnormals and signed zeros; random f32; integers of every width (boundaries and random): "
                             "to_string -> TLC checks number grammar, that the text denotes exactly x (correct rounding), and the value read back (text route and DOM route) is bit-identical; "
                             "raw numbers reproduce their literal (C07 trace); thorough tier adds the exhaustive 2^32 f32 parametric replay")
-    generic_record_validate("C08", res, "nm-record", ["--seed", seed, "--n", 6000 if tier == QUICK else 400000, "--mode", "write"], "Trace_Numbers", {}, "write")
+    generic_record_validate("C08", res, "nm-record", ["--seed", seed, "--n", 8000 if tier == QUICK else 400000, "--mode", "write"], "Trace_Numbers", {}, "write")
+    generic_record_validate("C08", res, "nm-record", ["--seed", seed, "--n", 0, "--mode", "pow10write"], "Trace_Numbers", {}, "pow10write")
+    # raw numbers: capture from bare / quoted literals, verbatim re-emission, accessors (judged by the parse events)
+    generic_record_validate("C08", res, "nm-record", ["--seed", seed + 8, "--n", 2000 if tier == QUICK else 100000, "--mode", "parse"], "Trace_Numbers", {}, "rawnumbers")
     exe = build_harness()
     stride = 4099 if tier == QUICK else 1
     rc, o, err = run_vh(exe, ["f32-sweep", "--stride", stride], timeout=7200)
